@@ -43,7 +43,7 @@ func registerShadows() {
 var c11Receivers = map[model.Kind][]model.Value{
 	model.KStr: {
 		model.Str(""), model.Str("a"), model.Str("hello world"), model.Str("héllo"), model.Str("éa"), model.Str("中文字"), model.Str("a😀b"),
-		model.Str("éx"), model.Str("ılık"), model.Str("ſo"), model.Str("ɐb"), model.Str("ɐ"), model.Str("ⱥb"), model.Str("ǆx"), model.Str("  pad\t\n"), model.Str("12"), model.Str("-7"), model.Str("a,b,,c"), model.Str("&lt;b&gt; &amp;"), model.Str("ßx"), model.Str("xx--xx"), model.Str("abc\uFFFD"), model.Str("\uFFFD"), model.Str("\uFFFDx\uFFFD"), model.Str("x\U0010FFFF"),
+		model.Str("éx"), model.Str("ılık"), model.Str("ſo"), model.Str("ɐb"), model.Str("ɐ"), model.Str("ⱥb"), model.Str("ǆx"), model.Str("  pad\t\n"), model.Str("12"), model.Str("-7"), model.Str("a,b,,c"), model.Str("&lt;b&gt; &amp;"), model.Str("ßx"), model.Str("xx--xx"), model.Str("café"), model.Str("Maß"), model.Str("日本語"), model.Str("x😀"), model.Str("añ"), model.Str("©é©"), model.Str("abc\uFFFD"), model.Str("\uFFFD"), model.Str("\uFFFDx\uFFFD"), model.Str("x\U0010FFFF"),
 	},
 	model.KArr: {
 		model.Arr(), model.Arr(model.Int(1)), model.Arr(model.Int(1), model.Int(2), model.Int(3)), model.Arr(model.Str("b"), model.Str("a"), model.Str("c"), model.Str("a")),
@@ -62,6 +62,8 @@ var c11Args = []model.Value{
 	model.Int(0), model.Int(1), model.Int(2), model.Int(3), model.Int(5), model.Int(-1), model.Int(-2), model.Int(-5), model.Int(9), model.Int(-9),
 	model.Int(2147483648), model.Int(9223372036854775807), model.Int(-9223372036854775807 - 1),
 	model.Str(""), model.Str(" "), model.Str(","), model.Str("a"), model.Str("é"), model.Str("..."), model.Str("x"),
+	// multi-byte cut sets and separators that share bytes with other characters
+	model.Str("©"), model.Str("🎉"), model.Str("Ğ"), model.Str("±é"), model.Str("語"),
 	model.Float(1.5), model.Bool(true), model.Nil, model.Arr(model.Int(1), model.Int(2)), model.Obj(map[string]model.Value{"a": model.Int(1)}), model.Str("1"),
 }
 
